@@ -1,15 +1,20 @@
 """Engine `roller` (D1): fibre_logging's CustomRoller through hook H5 in a scratch directory.
 
-case:   <gran> <maxsize|-> <retained|-> <maxuncompressed|-> <prefix> <fsuffix|_> <csuffix|_> <p0> <off0>
+case:   <gran> <maxsize|-> <retained|-> <maxuncompressed|-> <prefix> <fsuffix|_> <csuffix|_> <p0> <off0> <foreign|->
+        foreign = comma list of files created before the appender starts (file i holds marker record (900+i)/5):
+                  t:<p>:<s> "<prefix>_time.<period>.<s><fsuffix>", x:<p>:<s> "<prefix>x.<period>.<s><fsuffix>",
+                  d:<p>:<s> "<prefix>.extra.<period>.<s><fsuffix>" (sibling appenders), u "unrelated.dat"
         ( w <period> <off> <id> <len> | r <period> <off> | f )*
 output: "<res> <listing>" after start, after every op and after the final drop, joined by " | ";
-        listing tokens  A=<recs>  R<p>.<s>=<recs>  Z<p>.<s>=<recs>  X<raw name>=<recs>;  rec = id/len or ?len
+        listing tokens  A=<recs>  R<p>.<s>=<recs>  Z<p>.<s>=<recs>  F<i>=<recs>  X<raw name>=<recs>;  rec = id/len or ?len
 
 The MONITOR judges property C20 (rolling half) from the implementation's directory listings alone.
 """
+import re
+
 from .flow import Engine
 
-HDR = 9
+HDR = 10
 ARITY = {"w": 5, "r": 3, "f": 1}
 
 
@@ -18,8 +23,8 @@ def opt(s):
 
 
 def parse_listing(tokens):
-    """-> (active content or None, {(p, s): (compressed?, content)}, problems)"""
-    active, rolled, probs = None, {}, []
+    """-> (active content or None, {(p, s): (compressed?, content)}, {i: content of foreign file i}, problems)"""
+    active, rolled, foreign, probs = None, {}, {}, []
     for t in tokens:
         name, _, data = t.partition("=")
         recs = []
@@ -31,6 +36,8 @@ def parse_listing(tokens):
                 recs.append((int(i), int(ln)))
         if name == "A":
             active = recs
+        elif name[:1] == "F" and name[1:].isdigit():
+            foreign[int(name[1:])] = recs
         elif name[:1] in "RZ" and "." in name and name[1:].replace(".", "").isdigit():
             p, s = name[1:].split(".")
             k = (int(p), int(s))
@@ -39,7 +46,7 @@ def parse_listing(tokens):
             rolled[k] = (name[0] == "Z", recs)
         else:
             probs.append(("foreign-file", "unexpected directory entry %r" % name))
-    return active, rolled, probs
+    return active, rolled, foreign, probs
 
 
 class RollerEngine(Engine):
@@ -53,25 +60,30 @@ class RollerEngine(Engine):
     def corpus(self):
         return [
             # size rolls then a time roll in the same period (the sequence must continue: 1,2,3)
-            "minutely 10 - - app .log _ 0 1 w 0 1 1 12 w 0 1 2 12 w 0 2 3 4 w 1 0 4 12",
+            "minutely 10 - - app .log _ 0 1 - w 0 1 1 12 w 0 1 2 12 w 0 2 3 4 w 1 0 4 12",
             # retention keeps the newest 2
-            "never 10 2 - app .log _ 0 0 w 0 0 1 14 f w 1 0 2 14 f w 2 0 3 14 f w 3 0 4 14 f",
+            "never 10 2 - app .log _ 0 0 - w 0 0 1 14 f w 1 0 2 14 f w 2 0 3 14 f w 3 0 4 14 f",
             # compression, custom suffixes, rediscovery of compressed files for the next sequence
-            "never 10 - 0 test .txt .gzip 3 1 w 3 1 1 18 f w 3 1 2 19 f",
+            "never 10 - 0 test .txt .gzip 3 1 - w 3 1 1 18 f w 3 1 2 19 f",
             # restart re-opens the active file and sizes it from metadata
-            "daily 30 5 1 app .log .gz 0 1 w 0 1 1 10 w 0 1 2 10 r 0 2 w 0 2 3 10 w 1 0 4 5 r 3 1 w 3 1 5 5 w 4 0 6 31",
+            "daily 30 5 1 app .log .gz 0 1 - w 0 1 1 10 w 0 1 2 10 r 0 2 w 0 2 3 10 w 1 0 4 5 r 3 1 w 3 1 5 5 w 4 0 6 31",
             # max_retained = 0: every rolled file is deleted at once; sequence numbers are reused
-            "hourly 8 0 - app .log _ 0 0 w 0 0 1 9 w 0 1 2 9 w 1 0 3 4 w 2 0 4 9",
+            "hourly 8 0 - app .log _ 0 0 - w 0 0 1 9 w 0 1 2 9 w 1 0 3 4 w 2 0 4 9",
             # empty write still time-rolls; an empty active file is rolled too
-            "daily - 3 - x-1 _ _ 0 0 w 0 0 1 5 w 1 0 2 0 w 2 0 3 0 w 3 0 4 6 f",
+            "daily - 3 - x-1 _ _ 0 0 - w 0 0 1 5 w 1 0 2 0 w 2 0 3 0 w 3 0 4 6 f",
             # BufWriter boundaries
-            "never - - - app .log _ 0 0 w 0 0 1 8191 w 0 0 2 3 w 0 0 3 8192 w 0 0 4 8193 f w 0 0 5 4096 w 0 0 6 4096 w 0 0 7 2",
+            "never - - - app .log _ 0 0 - w 0 0 1 8191 w 0 0 2 3 w 0 0 3 8192 w 0 0 4 8193 f w 0 0 5 4096 w 0 0 6 4096 w 0 0 7 2",
             # clock going backwards (malformed stream)
-            "daily 6 1 - app .log _ 5 0 w 3 0 1 7 w 3 0 2 7 f",
-            "daily 6 - - app .log _ 5 0 w 3 0 1 7 w 3 0 2 7 w 4 1 3 3 r 2 0 w 2 0 4 8",
+            "daily 6 1 - app .log _ 5 0 - w 3 0 1 7 w 3 0 2 7 f",
+            "daily 6 - - app .log _ 5 0 - w 3 0 1 7 w 3 0 2 7 w 4 1 3 3 r 2 0 w 2 0 4 8",
             # month / leap-day / year boundaries
-            "daily - 5 2 a.b .log .zip 1 2 w 1 2 1 6 w 2 0 2 6 w 3 0 3 6 w 4 3 4 6 w 308 1 5 6 w 309 0 6 6 w 675 1 7 6 f",
-            "minutely - - - app_time .log _ 9 2 w 9 2 1 6 w 10 0 2 6 w 10 3 3 6 w 69 2 4 6 w 70 0 5 6 f",
+            "daily - 5 2 a.b .log .zip 1 2 - w 1 2 1 6 w 2 0 2 6 w 3 0 3 6 w 4 3 4 6 w 308 1 5 6 w 309 0 6 6 w 675 1 7 6 f",
+            "minutely - - - app_time .log _ 9 2 - w 9 2 1 6 w 10 0 2 6 w 10 3 3 6 w 69 2 4 6 w 70 0 5 6 f",
+            # sibling appenders sharing the prefix / unrelated files: never counted, renumbered, compressed or deleted
+            # (F-roller-prefix, fixed in /repo 95e064e: retention used to delete them)
+            "daily 5 1 - app .log _ 7 1 t:3:1 w 7 1 1 6 w 7 1 2 7 f",
+            "daily 5 1 0 app .log .gz 7 1 t:30:1,x:2:4,u w 7 1 1 6 w 7 1 2 7 w 8 0 3 6 f",
+            "never 5 2 1 app .txt .zip 0 0 t:0:9,x:400:1 w 0 0 1 6 w 1 0 2 7 w 2 0 3 6 r 3 0 w 3 0 4 6 f",
         ]
 
     # ------------------------------------------------------------------ generator
@@ -97,8 +109,23 @@ class RollerEngine(Engine):
         csuf = rng.pick([".gz", ".gz", ".gzip", ".zip"]) if comp is not None else "_"
         backwards = rng.chance(1, 8)
         p = rng.pick([0, 0, 1, 3, 22, 57, 58, 305, 364])
+        foreign = "-"
+        if rng.chance(1, 3):
+            fl = []
+            for _ in range(rng.pick([1, 1, 2, 3])):
+                kind = rng.weighted([("t", 5), ("x", 3), ("u", 1)])
+                if kind == "u":
+                    if "u" not in fl:
+                        fl.append("u")
+                    continue
+                # older than, equal to, or newer than the periods the roller will use
+                fp = rng.pick([max(0, p - 1), max(0, p - rng.pick([2, 5, 30])), p, p + 1, p + rng.pick([2, 40, 400])])
+                spec = "%s:%d:%d" % (kind, fp, rng.pick([1, 1, 2, 3, 9]))
+                if spec not in fl:
+                    fl.append(spec)
+            foreign = ",".join(fl)
         toks = [gran, "-" if maxsize is None else str(maxsize), "-" if retained is None else str(retained),
-                "-" if comp is None else str(comp), prefix, fsuf, csuf, str(p), str(rng.below(4))]
+                "-" if comp is None else str(comp), prefix, fsuf, csuf, str(p), str(rng.below(4)), foreign]
         n = rng.pick([1, 2, 3, 5, 8, 12, 20, 30, 45, 60])
         nid = 0
         est = 0
@@ -159,7 +186,8 @@ class RollerEngine(Engine):
                 p = int(op[1])
                 ks.append(op[0] + ("=" if p == last else "+" if p > last else "-") + (op[4] if op[0] == "w" else ""))
                 last = p
-        return " ".join(hdr[:4]) + "|" + " ".join(ks)
+        fk = "".join(sorted(x[0] for x in hdr[9].split(","))) if hdr[9] != "-" else ""
+        return " ".join(hdr[:4]) + "|" + fk + "|" + " ".join(ks)
 
     def nontrivial(self, line, impl_out):
         return " R" in impl_out or " Z" in impl_out
@@ -169,7 +197,13 @@ class RollerEngine(Engine):
         hdr, ops = self.split(line)
         hits = []
 
+        # a prefix that itself contains ".<date>.<digits>" (finding F-roller-dated-prefix; never generated, only
+        # replayed as a witness): the loss/clobber clauses are reported under that finding's own id
+        dated = re.search(r"\.\d{4}-\d{2}-\d{2}(_\d{2}-\d{2}-\d{2})?\.\d+", hdr[4]) is not None
+
         def hit(c, d):
+            if dated and c in ("clobber", "lost-record"):
+                c, d = "dated-prefix-clobber", c + ": " + d
             if all(c != x for x, _ in hits):
                 hits.append((c, d))
 
@@ -180,6 +214,7 @@ class RollerEngine(Engine):
         eff = (lambda p: 0) if never else (lambda p: p)
         times = [int(hdr[7])] + [int(op[1]) for op in ops if op[0] in "wr"]
         mono = all(eff(a) <= eff(b) for a, b in zip(times, times[1:]))
+        fspecs = hdr[9].split(",") if hdr[9] != "-" else []
         segs = out.split(" | ")
         if len(segs) != len(ops) + 2 and "PANIC" not in out and not segs[0].startswith("E"):
             hit("bad-output", "expected %d listings, got %d" % (len(ops) + 2, len(segs)))
@@ -203,7 +238,13 @@ class RollerEngine(Engine):
                 hit("partial-write", "one record needed several write calls " + where)
             if op and op[0] == "w" and int(op[4]) > 0 and res.startswith("ok"):
                 stream.append((int(op[3]), int(op[4])))
-            active, rolled, probs = parse_listing([t for t in toks[1:] if t])
+            active, rolled, foreign, probs = parse_listing([t for t in toks[1:] if t])
+            # -- files of other appenders / unrelated files are never deleted, renamed, compressed or changed
+            for i, spec in enumerate(fspecs):
+                if foreign.get(i) != [(900 + i, 5)]:
+                    what = "is gone (deleted, renamed or compressed)" if i not in foreign else "changed content"
+                    hit("dotted-sibling-touched" if spec[0] == "d" else "foreign-file-touched",
+                        "foreign file %d (%s) %s %s" % (i, spec, what, where))
             for c, d in probs:
                 hit(c, d + " " + where)
             if active is None:
